@@ -541,6 +541,29 @@ func init() {
 	native1("strings.ToUpper", strings.ToUpper)
 	// TrimSpace over a symbolic string: strip one white-space character at a time, each
 	// strip an explored decision (bounded by the string length bound of the harness).
+	// ToLower / ToUpper of a symbolic (printable ASCII) string: the length is case-split,
+	// each character is mapped through its code
+	caseMap := func(name string, lo, hi, delta int64, native func(string) string) {
+		reg(name, func(ex *Exec, fr *frame, a []Value) Value {
+			if s, ok := a[0].(string); ok {
+				return native(s)
+			}
+			s := strTerm(a[0])
+			out := TStr("")
+			for i := int64(0); i < 16; i++ {
+				if !ex.branchV(TGt(TStrLen(s), TInt(i))) {
+					return simplify(out)
+				}
+				c := TStrAt(s, TInt(i))
+				code := TToCode(c)
+				out = TConcat(out, TIte(TAnd(TGe(code, TInt(lo)), TLe(code, TInt(hi))), TFromCode(TAdd(code, TInt(delta))), c))
+			}
+			ex.inconclusive(name + " of a symbolic string longer than 16")
+			return nil
+		})
+	}
+	caseMap("strings.ToLower", 65, 90, 32, strings.ToLower)
+	caseMap("strings.ToUpper", 97, 122, -32, strings.ToUpper)
 	reg("strings.TrimSpace", func(ex *Exec, fr *frame, a []Value) Value {
 		if s, ok := a[0].(string); ok {
 			return strings.TrimSpace(s)
